@@ -54,6 +54,15 @@ static void *vt_alloc(size_t n){
 /* fill p[0..n) with symbolic bytes, n<=max; max is a compile-time constant loop bound */
 #define VT_FILL(p,n,max) do{ for(int vt_i=0; vt_i<(max); vt_i++) if(vt_i<(n)) ((unsigned char*)(p))[vt_i]=vt_uchar(); }while(0)
 
+/* n symbolic bytes that END at the end of an object: an over-read past the data is an out-of-bounds access for CBMC without
+   needing a symbolic-size object (which exhausts memory beyond a few dozen bytes). Reads before the start are not caught
+   under CBMC; the native replay uses an exact allocation, so ASan sees both sides. */
+#ifdef VT_REPLAY
+#define VT_TAILBUF(name,n,max) unsigned char *name=(unsigned char*)vt_alloc(n); do{ unsigned char vt_tmp[(max)?(max):1]; VT_FILL(vt_tmp,(max),(max)); memcpy(name,vt_tmp+((max)-(n)),(n)); }while(0)
+#else
+#define VT_TAILBUF(name,n,max) unsigned char name##_store[(max)?(max):1]; VT_FILL(name##_store,(max),(max)); unsigned char *name=name##_store+((max)-(n))
+#endif
+
 #ifndef VT_NO_CELT_FATAL
 #ifdef __GNUC__
 __attribute__((noreturn))
